@@ -524,6 +524,16 @@ class Duror(Filer):
                         if ckey == key:  # prior (last) entry at key
                             ion = cion  # so set ion to the cion
 
+            if ion is None:  # entries of other keys such as key.x may sort after
+                # the entries of key but before its max so scan entries of key
+                iokey = self.suffix(key, 0, sep=sep)
+                if cursor.set_range(iokey):  # move to val at key >= iokey if any
+                    for iokey in cursor.iternext(values=False):
+                        ckey, cion = self.unsuffix(iokey, sep=sep)
+                        if ckey != key:  # prev entry if any was last for key
+                            break
+                        ion = cion
+
             if ion is not None:
                 iokey = self.suffix(key, ion=ion, sep=sep)
                 val = bytes(cursor.get(iokey))
